@@ -164,6 +164,12 @@ def apply_op(name, args, rng):
     if name in BINARY and BINARY[name] is not None:
         return BINARY[name](args[0], args[1])
     q = args[0]
+    # constructions that square the dimension (superoperators) or multiply it (tensor products) are kept small: an
+    # 81-dimensional operand would give a 6561-dimensional generator, minutes of CPU for nothing the property is about
+    if q.shape[0] > 9 and name in ("spre", "spost", "to_super", "liouvillian", "dissipator", "dissipator_chi", "liouvillian_chi", "dissipator_pair",
+                                   "to_choi", "to_chi", "to_super_rt", "super_tensor", "mesolve_dm", "steadystate", "propagator", "ptrace", "permute",
+                                   "tensor_swap_left", "tensor_swap_right", "tensor_swap_both", "tensor_swap_cross", "expand_operator", "contract"):
+        return q.copy()
     if name == "proj_col":
         return qutip.Qobj(q.full()[:, :1]).proj()
     if name == "ptrace":
@@ -332,8 +338,12 @@ def apply_op(name, args, rng):
             return q.copy()
         return qutip.steadystate((q + q.dag()) * 0.5, [qutip.destroy(2)])
     if name == "tensor":
+        if q.shape[0] * args[1].shape[0] > 100:
+            return q.copy()
         return qutip.tensor(q, args[1])
     if name == "sprepost":
+        if q.shape[0] > 9 or args[1].shape[0] > 9:
+            return q.copy()
         return qutip.sprepost(q, args[1])
     if name == "commutator":
         return qutip.commutator(q, args[1])
@@ -346,7 +356,8 @@ def apply_op(name, args, rng):
 
 def gen_program(rng, tier):
     """a program: list of steps (op name, operand indices) / reads, over a store seeded by the pool"""
-    names = list(base_pool().keys())
+    # the ill-conditioned operators are large: they take part in the fixed programs of corpus/C03 only
+    names = [k for k in base_pool().keys() if not k.startswith("ill_")]
     k0 = int(rng.integers(2, 5))
     init = [names[int(i)] for i in rng.choice(len(names), size=k0, replace=False)]
     L = int(rng.integers(3, 10 if tier == "quick" else 25))
